@@ -10,7 +10,7 @@ use crate::mirror::encode::key_bytes;
 use crate::oracle::{self, Path};
 use crate::refscript::{varint_len, verify_input, Flags, ScriptError, Trace};
 use crate::runner::{fail, Check, Failure, Report, Src, Tier};
-use crate::world::{make_tx, sign_real, World};
+use crate::world::{make_tx_w, sign_real, World};
 use bitcoin::{ScriptBuf, TxIn, Witness};
 use miniscript::descriptor::ShInner;
 use miniscript::{Descriptor, Miniscript, ScriptContext};
@@ -298,7 +298,7 @@ impl Check for C09 {
         let mall = src.chance(1, 3);
         rep.desc = format!("[{}] {} | {} | {}", sname, if text.len() > 400 { &text[..400] } else { &text }, world.describe(), if mall { "mall" } else { "nonmall" });
         let scripts = d.scripts().map_err(|e| Failure { sig: "mirror-encode".into(), msg: e })?;
-        let mut t = make_tx(&scripts.spk, world.lock_time, world.sequence, 1, 0);
+        let mut t = make_tx_w(&scripts.spk, &world, 1, 0);
         let sat = sign_real(&d, &world, &t).map_err(|e| Failure { sig: "sign".into(), msg: e })?;
         let r = if mall { lib.get_satisfaction_mall(&sat) } else { lib.get_satisfaction(&sat) };
         let (wit, ss) = match r {
@@ -372,7 +372,7 @@ impl Check for C09 {
         if tight >= 80 || stress {
             rep.nontrivial_by(&(&text, world.describe(), mall));
         }
-        let _ = (BTreeSet::<u8>::new(), ScriptBuf::new(), World { keys: Default::default(), preimages: Default::default(), lock_time: 0, sequence: 0 });
+        let _ = (BTreeSet::<u8>::new(), ScriptBuf::new(), World { keys: Default::default(), preimages: Default::default(), lock_time: 0, sequence: 0, tx_version: 2 });
         Ok(())
     }
 }
